@@ -683,6 +683,9 @@ def special(kind, **kw):
     return d
 
 
+ODD_METHODS = ['GE"T', '(GET)', 'P@TCH', 'GET /x', 'G\tET', '', ' ', 'get', 'PROPFIND', 'H\xc9AD', '{}', 'GET,POST', 'M-SEARCH']
+
+
 def retresp(muts, **kw):
     """the handler changes the response object and returns that object itself"""
     d = c3.ret(dict(k='falsy', v='none'), **kw)
@@ -826,6 +829,9 @@ def g_request(rng, rid):
         case['routing']['reg'] = 'ANY'
     if case['routing']['k'] == '405':
         case['method'] = rng.choice(['PATCH', 'OPTIONS'])
+    if rng.random() < 0.1:
+        # a method string that is no RFC 7230 token: for the framework just another verb that is not HEAD
+        case['method'] = rng.choice(ODD_METHODS)
     req.update({'class': case['routing']['k'], 'case': case})
     return req
 
@@ -993,6 +999,15 @@ def corpus():
                            reqs=[_req(0, dict(cookie, method=prev_m)), nopath(1, m, json=True), _req(2, plain(hello))]))
     cs.append(dict(kind='history', peek=False, eh=[], reqs=[nopath(0, 'GET'), nopath(1, 'HEAD'), _req(2, cookie), dict(bad, id=3),
                                                             nopath(4, 'GET'), dict(over[0], id=5), nopath(6, 'HEAD')]))
+    # a REQUEST_METHOD that is no token, right after a request that set cookies / headers / status and had its own
+    # URL: routed like any verb (handler on an ANY route, 404, 405 with the Allow list), on re-initialised objects
+    # (seeded change: such a method is answered 400 at the top of _handle, before request/response.__init__)
+    for k, m in enumerate(ODD_METHODS):
+        nxt = [plain(hello, method=m, json=bool(k % 2)),
+               dict(plain(hello), routing=dict(k='404', partial=None), method=m, json=bool(k % 2)),
+               dict(plain(hello), routing=dict(k='405'), method=m, path='special')][k % 3]
+        cs.append(dict(kind='history', peek=bool(k % 2), eh=[],
+                       reqs=[_req(0, dict(cookie, path='special'), qs='token=secret'), _req(1, nxt), _req(2, dict(nxt, json=True))]))
     # a handler that returns the per-thread response object itself, after requests whose outcome went through
     # HTTPResponse.apply (404, 405, crash, raised / returned response with a body, 400 for a bad path, body error):
     # its body is empty, whatever those left in response.body (seeded change: a reset() that forgets .body)
